@@ -35,6 +35,7 @@ PROPS = {
               "and later attempts neither crash nor re-execute; the same holds when the applied prefix was recorded by two partial runs (the hashes "
               "written by a resumed run are the ones compared). Bounded model checking is the right level: the property quantifies over "
               "file contents and edit positions, which become solver variables and structural forks.",
+        technique='bounded symbolic execution of the real Executor.Execute from go/ssa with fully symbolic statement bytes and hash tokens; branches and assertions decided by z3 (thorough: every unsat re-checked on z3 5.1 and cvc5); counterexamples replayed natively',
         note="Bounded (see evidence.bounds). Trusted: go/ssa lowering, the engine's instruction semantics, z3 (thorough: every unsat "
              "answer re-checked on z3 5.1 and cvc5), SHA-256 modelled as an injective opaque token, the model Dir/File/Driver/revision "
              "table of harness/migrate/zz_verif_model.go. The decision 'file is pending again while Applied != Total' is copied from "
@@ -82,6 +83,7 @@ PROPS["C08"] = dict(
           "the real Scanner.Scan terminates without panic and either errors or returns statements whose text is exactly input[Pos:Pos+len], "
           "in increasing non-overlapping order, with everything dropped in between classified as blank/comment/delimiter/delimiter command by an "
           "independent classifier. Inputs are fully symbolic bytes, so each explored path is a class of inputs decided by the solver.",
+    technique='bounded symbolic execution of the real statement scanner from go/ssa over fully symbolic input bytes (and symbolic option booleans); every scanner branch is a z3 query, assertions (text at position, ordering, gap classification) decided by z3; counterexamples replayed natively',
     note="Bounded by input length (see evidence.bounds). The gap classifier in harness/migrate/zz_verif_c08.go is the oracle for 'nothing is "
          "silently dropped' and is trusted; regexp matching on symbolic bytes is the engine's backtracking matcher over regexp/syntax programs.",
 )
@@ -107,6 +109,7 @@ PROPS["C09"] = dict(
           "Executor.ExecuteN/Pending/Execute never record more than was executed, run statements in version/file order without skipping, repeat a "
           "statement only when its own bookkeeping write failed (once per such failure), execute every statement exactly once when only statements "
           "fail, and the final clean run completes the directory.",
+    technique='bounded symbolic execution of the real Executor from go/ssa against a model store whose failing operation index is a z3 integer; branches and assertions decided by z3; counterexamples replayed natively',
     note="Bounded. Trusted: engine semantics, z3, the recording driver / copying revision table models (harness/migrate/zz_verif_model.go).",
 )
 
@@ -143,6 +146,7 @@ PROPS["C11"] = dict(
     claim="For every directory, history and option combination within the bounds, the real Executor.Pending (and ExecuteN on an identical "
           "store) returns exactly the documented pending list or error: compared against an independent reference of the documented semantics "
           "plus reference-free invariants (no fully applied version pending, duplicate-free, partial file first).",
+    technique='bounded symbolic execution of the real Executor.Pending / checkpoint helpers from go/ssa: version strings are symbolic byte runs, histories by forks, compared with an independent reference; branches and assertions decided by z3; counterexamples replayed natively',
     note="Bounded; structural enumeration by path forking with solver-decided version ordering. Trusted: the reference semantics in "
          "harness/migrate/zz_verif_c11.go, engine, z3, environment models.",
 )
@@ -183,6 +187,7 @@ PROPS["C06"] = dict(
           "Validate succeeds iff the directory is unchanged, reports tampering as ChecksumError/ErrChecksumMismatch, and an untouched directory "
           "validates. With files carrying the documented 'atlas:sum ignore' directive the exact detected region (hashed view) is asserted instead "
           "and the undetected remainder is the listed known finding.",
+    technique='bounded symbolic execution of the real hash-file code (NewHashFile, Validate, MarshalText/UnmarshalText) from go/ssa with all content bytes and edited names as z3 variables and SHA-256 as an injective uninterpreted token (Dolev-Yao); branches and assertions decided by z3; counterexamples replayed natively with the real SHA-256',
     note="Bounded. Hash abstraction as above (collision freedom is an assumption, not checked). Trusted: engine (incl. its regexp matcher, "
          "pruned by minimal match length), z3, oracle functions verifSameDir / verifHashedViewEq.",
 )
@@ -230,6 +235,7 @@ PROPS["C19"] = dict(
           "ExcludeSchema behaves as ExcludeRealm with the pattern qualified by the literal schema name and never touches another schema. "
           "Skip policy: for every subset of 8 skippable change kinds and every present/absent combination of column/index/pk/fk on both sides "
           "(attributes differing so that both-present is a modify), TableDiff reports no change of a disabled kind and still every other edit.",
+    technique='bounded symbolic execution of the real ExcludeRealm / ExcludeSchema (path/filepath.Match and encoding/csv from source) with glob bytes as z3 variables, and of TableDiff under every skip policy; branches and assertions decided by z3; counterexamples replayed natively',
     note="Bounded. Trusted: the references verifExcluded / verifExpected, engine, z3. The skip-policy runs are exhaustive structural enumeration.",
 )
 
@@ -267,6 +273,7 @@ PROPS["C18"] = dict(
           "position of its first statement, and statements next to a rebuild are still analysed. The listed known finding is exactly the set of drop statements for which the "
           "whole-file (order-insensitive) span verdict differs from the position-aware one; all other statements, also of the same file, are "
           "checked exactly.",
+    technique="bounded exploration of the real destructive analyzer, span tracking and SQLite analyzer chain from go/ssa over every statement sequence of the bound; inputs are structural, so the engine's choice points enumerate them exhaustively and z3 decides the data-dependent branches that arise; counterexamples replayed natively",
     note="Structural enumeration (exhaustive: true) executed on the real SSA; reference = ordered replay in the harness.",
 )
 
@@ -335,6 +342,7 @@ PROPS["C15"] = dict(
           "evaluated back through the registry means the same type (family, storage class, size, precision, scale, sign, values); and for every "
           "schema of the document-level families, MarshalHCL then EvalHCLBytes gives a schema with an empty diff in both directions whose re-marshalled "
           "bytes are identical. MySQL ENUM/SET values containing quotes, commas or backslashes, and MySQL NOT ENFORCED checks, are the listed known findings.",
+    technique='bounded symbolic execution of the real type formatters/parsers from go/ssa (sizes, precisions, scales as z3 integers; enum bytes symbolic) and, for the HCL levels, execution of the real schemahcl / hashicorp-hcl / go-cty code from source in the same engine (integers case-split where they enter big.Float or fmt); branches and assertions decided by z3; counterexamples replayed natively',
     note="Type slice of C15 (format/parse fix-point and registry-level HCL round trip). Bounded parameter ranges; structural choice of the type family by forking.",
 )
 
@@ -369,6 +377,7 @@ PROPS["C02"] = dict(
     claim="For every template instance within the bounds the real TableDiff (sqlx.Diff + the dialect driver) returns exactly one change per "
           "elementary edit with exactly the expected ChangeKind flags and nothing for unedited elements; diff with itself / a permuted copy is empty. "
           "The expected set comes from an independent reference in the harness.",
+    technique='bounded symbolic execution of the real differ (sqlx.Diff + dialect DiffDriver) from go/ssa: flags (NULL, UNIQUE, DESC...) and the bytes of defaults / comments / check expressions are z3 bit-vector variables, presence of schema elements is a structural fork; every data-dependent branch and every assertion is a z3 query; counterexamples replayed natively',
     note="Bounded template; reference verifExpected is trusted. The non-normalized check comparison (checksSimilarDiff) is legacy and not used by the CLI.",
 )
 
@@ -396,6 +405,7 @@ PROPS["C05"] = dict(
           "order, copying exactly the surviving non-generated columns, each from itself or its old name (NULL-defaulting only for a column that became "
           "NOT NULL with a default); in a plan over several tables every DROP TABLE (a rebuild's or a real one) lies inside the "
           "PRAGMA foreign_keys off/on bracket, so dropping cannot cascade into other tables' rows. Code-level core of C05 only.",
+    technique='bounded symbolic execution of the real SQLite planner (modifyTable, copyRows, alterable) from go/ssa: the ChangeKind of each modified column is a z3 bit-vector (all 255 values), nullability symbolic, structure by forks; assertions decided by z3; counterexamples replayed natively',
     note="Bounded; the statement-shape parser in the harness is trusted. The data-level half of C05 needs a real engine and is outside the claim.",
 )
 
@@ -429,6 +439,7 @@ PROPS["C04"] = dict(
     claim="For every graph/role combination within the bounds the real PlanChanges (topLevel, DetachCycles, SortChanges, statement builders) "
           "plans without error; replaying the planned sources in order, every table is created before a key pointing at it is declared, dropped only "
           "after all keys pointing at it are gone, created/dropped exactly once, and all intended keys end up declared/removed.",
+    technique="bounded exploration of the real planners (SortChanges, detachReferences, PlanChanges) from go/ssa over every foreign-key graph of the bound; the inputs are structural (graph shape, order), so the engine's choice points enumerate them exhaustively and z3 decides only the data-dependent branches that arise (few); counterexamples replayed natively",
     note="Exhaustive structural enumeration (coverage.exhaustive) executed on the real SSA by the symbolic engine.",
 )
 
@@ -459,6 +470,7 @@ PROPS["C16"] = dict(
     claim="For every change set of the catalogue and every schema name / qualifier of the marker alphabets, a plan scoped with the empty qualifier "
           "contains no planned or reverse statement mentioning the schema name or touching a schema, schema-level and two-schema change sets are rejected, "
           "and with a custom qualifier every table reference is prefixed by exactly that qualifier.",
+    technique='bounded symbolic execution of the real planners from go/ssa with the schema name and the qualifier as z3 byte variables (non-interference: no byte of the name reaches a statement); branches and assertions decided by z3; counterexamples replayed natively',
     note="Bounded by the change-set catalogue. Trusted: engine, z3, the occurrence scanner verifQualified.",
 )
 
@@ -507,6 +519,7 @@ PROPS["C17"] = dict(
           "unreversed change (SQLite rebuild) is not reported reversible; the reverse of a destructive change mentions everything that defined the "
           "dropped object (index uniqueness, columns in order, direction, predicate; column type, nullability, default; check name and expression; "
           "foreign-key reference and action).",
+    technique="bounded symbolic execution from go/ssa of SetReversible / ReverseStmts / the formatters' down templates (real parsed trees) with reverse statement bytes and restored values as z3 variables; planner catalogue by forks; assertions decided by z3; counterexamples replayed natively",
     note="Flag and down-file slice of C17; bounded. Trusted: template evaluator, engine, z3, the keyword-level inverse table in the harness.",
 )
 
@@ -543,6 +556,7 @@ PROPS["C20"] = dict(
     claim="For every explored map-iteration order the planners' statements (and reverse statements), directory listings, sum files and formatted files "
           "are byte-identical; permuting the declaration order of the change set yields the same multiset of statements and flags; evaluating "
           "the same HCL files and marshalling the result gives the same bytes under every explored map order.",
+    technique="bounded schedule exploration on the real code from go/ssa: the iteration order of every map range in Atlas code, write orders and declaration orders are choice points of the engine (a schedule space, enumerated exhaustively within the bound; the inputs carry no data for z3 to decide); outputs compared bytewise; counterexamples replayed natively (repeated, since Go's real order is random)",
     note="Schedule enumeration on the real SSA; no concurrency. Trusted: engine's ordered-map model (Go's real order is unspecified; every order the "
          "engine explores is a legal one).",
 )
@@ -582,6 +596,7 @@ PROPS["C14"] = dict(
           "it; otherwise the restore is attempted on every exit path, nothing runs after it started, a completed restore leaves the database empty, a "
           "failing restore is reported, and replaying never writes to the directory; the same exit-path guarantee holds for migrate lint's DevLoader.LoadChanges "
           "(with its intermediate restores before checkpoint files).",
+    technique='bounded symbolic execution of the real Replay / Normalize / LoadChanges / Snapshot code from go/ssa over a modelled dev database whose failing operation index is a z3 integer; branches and assertions decided by z3; counterexamples replayed natively',
     note="Bounded; environment model as above. Trusted: engine, z3.",
 )
 
@@ -616,6 +631,7 @@ PROPS["C07"] = dict(
     claim="For every value of the symbolic bytes (quotes, semicolons, comment markers, backslashes, newlines, non-ASCII included) the statements read back "
           "from the written file are exactly the planned commands, same count, order and text, for each formatter/reader pair; the goose / dbmate readers on "
           "MySQL texts that need backslash-escape awareness are the listed known finding.",
+    technique='bounded symbolic execution from go/ssa of planner -> formatter templates (the real parsed text/template trees) -> file -> real statement scanner, with identifier / literal bytes as z3 variables; branches and assertions decided by z3; counterexamples replayed natively',
     note="Bounded by string length and the one-table plan. Trusted: engine (incl. strconv.Quote run from source), template evaluator, z3.",
 )
 
@@ -671,6 +687,7 @@ PROPS["C13"] = dict(
           "the file and re-running reaches the fault-free final state; a dry run on a database with history changes nothing; applyChanges (schema apply) "
           "leaves nothing of a failed plan in its default mode and exactly the successful prefix in none mode. A dry run on a database without revision "
           "table is the listed known finding.",
+    technique='bounded exploration of the real migrate-apply / schema-apply code from go/ssa against a transactional model store; failing position, modes and directives are structural forks (z3 decides the few data-dependent branches); sampled paths and all counterexamples executed on the real CLI / real sqlclient + SQLite',
     note="Model-store based (bounded); stub fidelity is guarded by replaying counterexamples and sampled paths on the real CLI + SQLite.",
 )
 
@@ -704,6 +721,7 @@ PROPS["C10"] = dict(
           "not in the journal, in file and all modes no file is half applied, and re-running the same command completes with every statement present "
           "exactly once (file, all) or at least once with at most the single in-flight statement twice (none); with per-file directives the "
           "guarantee of each file is the one of its effective mode.",
+    technique='bounded symbolic execution of the real migrate-apply code (migrateApplyRun, tx multiplexer, Executor) from go/ssa against a transactional model store; the crash event index is a z3 integer over the whole run, shapes/modes by forks; assertions decided by z3; sampled paths and all counterexamples executed on the real CLI + SQLite through an event-counting driver',
     note="Model-store based and bounded; fidelity guarded by executing sampled paths and all counterexamples on the real CLI + SQLite with the crash driver.",
 )
 
@@ -742,6 +760,7 @@ PROPS["C03"] = dict(
     claim="For every expression text within the bounds, the CHECK constraints (names and expressions), the foreign-key constraint name, the "
           "AUTOINCREMENT flag and the generated-column expression recovered by fillChecks / fillConstName / autoinc / setGenExpr / scanExpr from the "
           "statement the planner emitted equal what was emitted.",
+    technique="bounded symbolic execution of the real SQLite planner and inspection code from go/ssa over fully symbolic expression / name bytes (regexp matching by the engine's symbolic matcher); branches and assertions decided by z3; *sql.Rows served by substituted functions; counterexamples replayed natively on the real database/sql",
     note="Statement-text slice of C03 only. Bounded; the regular expressions of inspect.go run on the engine's symbolic matcher.",
 )
 
